@@ -1269,8 +1269,8 @@ def run(chk: Check):
     lap("tables")
     # ---- part 2: the log machine
     if quick:
-        _machine(chk, agg, 2, 4, 6, "{1,2,3,4}", "{1,2,3,4,5,6,7}", "W2")
-        _machine(chk, agg, 1, 3, 6, "{1,2,4}", "{1,2,4,5,7}", "W1")
+        _machine(chk, agg, 2, 4, 6, "{1,2,3,4}", "{1,2,3,4,5,6}", "W2")
+        _machine(chk, agg, 1, 3, 6, "{1,2,4}", "{1,2,4,5,7}", "W1")      # (the ill-formed filter text is in this one)
     else:
         _machine(chk, agg, 2, 4, 9, "{1,2,3,4}", "{1,2,3,4,5,6,7}", "W2")
         _machine(chk, agg, 1, 4, 7, "{1,2,3,4}", "{1,2,3,4,5,6,7}", "W1")
